@@ -4,6 +4,9 @@
      committed      the committed transactions (store.commit under s.mutex appends one)
      indexed        how many of them the indexer has applied, indexed <= |committed|
                     (the index state is the prefix `firstn indexed committed`)
+     hub            what WaitForIndexingUpto compares with (indexer.wHub.DoneUpto): the highest
+                    value `indexed` ever had; it differs from `indexed` only after an online
+                    index compaction re-opened the index from an older copy
      calls          numbered 0..n-1, each with invocation/return stamps from one clock, a phase,
                     and the response once it is determined
 
@@ -29,7 +32,8 @@
    (m_lo: calls linearized within the indexed prefix, m_hi: committed writes not yet indexed), and
    m_split: Gets whose two look-ups saw different index states, and snapshot reads with SinceTx > 0
    served from a reused older snapshot, whose response differs from what a single look-up on the
-   current index would have given.
+   current index would have given; and a marker for every index compaction that moved the index
+   back.
    Definitions only; proofs in MachineProofs.v. *)
 From V Require Export Lin.History.
 Local Open Scope nat_scope.
@@ -52,6 +56,7 @@ Record mstate := mkM {
   m_clock : N;
   m_committed : state;
   m_indexed : nat;
+  m_hub : nat;
   m_lo : list nat;
   m_hi : list nat;
   m_split : list nat }.
@@ -61,7 +66,7 @@ Definition set {A} (f : nat -> A) (i : nat) (x : A) : nat -> A :=
 
 Definition m_init : mstate :=
   mkM 0 (fun _ => 0%N) (fun _ => None) (fun _ => CR RCount) (fun _ => None) (fun _ => PNone)
-      1%N [] 0 [] [] [].
+      1%N [] 0 0 [] [] [].
 
 Definition idx (m : mstate) : state := firstn (m_indexed m) (m_committed m).
 Definition is_write (c : call) : bool := match c with CW _ => true | CR _ => false end.
@@ -75,6 +80,7 @@ Inductive label :=
 | LRead1 (i : nat)
 | LRead2 (i : nat)
 | LSnap (i : nat)
+| LCompact (p : nat)
 | LReturn (i : nat).
 
 Inductive mstep (mode : bool) : mstate -> label -> mstate -> Prop :=
@@ -83,42 +89,43 @@ Inductive mstep (mode : bool) : mstate -> label -> mstate -> Prop :=
     mstep mode m (LInvoke c nw)
       (mkM (S (m_n m)) (set (m_inv m) (m_n m) (m_clock m)) (m_ret m) (set (m_call m) (m_n m) c)
            (m_res m) (set (m_phase m) (m_n m) (PInvoked (length (m_committed m)) nw))
-           (m_clock m + 1)%N (m_committed m) (m_indexed m) (m_lo m) (m_hi m) (m_split m))
+           (m_clock m + 1)%N (m_committed m) (m_indexed m) (m_hub m) (m_lo m) (m_hi m) (m_split m))
 | s_commit m i w t c0 nw :
     i < m_n m -> m_call m i = CW w -> m_phase m i = PInvoked c0 nw ->
-    (needs_index w = true -> m_indexed m = length (m_committed m)) ->
+    (needs_index w = true -> m_hub m = length (m_committed m)) ->
     apply (idx m) w = Ok t ->
     mstep mode m (LCommit i w t)
       (mkM (m_n m) (m_inv m) (m_ret m) (m_call m)
            (set (m_res m) i (Some (ResTx (slen (m_committed m) + 1)%N)))
            (set (m_phase m) i (PCommitted (S (length (m_committed m))) nw))
-           (m_clock m) (m_committed m ++ [t]) (m_indexed m) (m_lo m) (m_hi m ++ [i]) (m_split m))
+           (m_clock m) (m_committed m ++ [t]) (m_indexed m) (m_hub m) (m_lo m) (m_hi m ++ [i]) (m_split m))
 | s_refuse m i w e c0 nw :
     i < m_n m -> m_call m i = CW w -> m_phase m i = PInvoked c0 nw ->
-    (if (e =? EPrecond)%N then m_indexed m = length (m_committed m) else c0 <= m_indexed m) ->
+    (if (e =? EPrecond)%N then m_hub m = length (m_committed m) else c0 <= m_hub m) ->
     apply (idx m) w = Err e ->
     mstep mode m (LRefuse i w e)
       (mkM (m_n m) (m_inv m) (m_ret m) (m_call m) (set (m_res m) i (Some (ResErr e)))
            (set (m_phase m) i PAnswered)
-           (m_clock m) (m_committed m) (m_indexed m) (m_lo m ++ [i]) (m_hi m) (m_split m))
+           (m_clock m) (m_committed m) (m_indexed m) (m_hub m) (m_lo m ++ [i]) (m_hi m) (m_split m))
 | s_abort m i c0 nw :
     i < m_n m -> m_phase m i = PInvoked c0 nw ->
     mstep mode m (LAbort i)
       (mkM (m_n m) (m_inv m) (m_ret m) (m_call m) (set (m_res m) i (Some ResAbort))
            (set (m_phase m) i PAnswered)
-           (m_clock m) (m_committed m) (m_indexed m) (m_lo m) (m_hi m) (m_split m))
-| s_index m x rest :
-    m_indexed m < length (m_committed m) -> m_hi m = x :: rest ->
+           (m_clock m) (m_committed m) (m_indexed m) (m_hub m) (m_lo m) (m_hi m) (m_split m))
+| s_index m :
+    m_indexed m < length (m_committed m) ->
     mstep mode m LIndex
       (mkM (m_n m) (m_inv m) (m_ret m) (m_call m) (m_res m) (m_phase m)
-           (m_clock m) (m_committed m) (S (m_indexed m)) (m_lo m ++ [x]) rest (m_split m))
+           (m_clock m) (m_committed m) (S (m_indexed m)) (Nat.max (m_hub m) (S (m_indexed m)))
+           (m_lo m ++ firstn 1 (m_hi m)) (skipn 1 (m_hi m)) (m_split m))
 | s_read1 m i q c0 nw :
     i < m_n m -> m_call m i = CR q -> m_phase m i = PInvoked c0 nw ->
-    (nw = true \/ c0 <= m_indexed m) ->
+    (nw = true \/ c0 <= m_hub m) ->
     mstep mode m (LRead1 i)
       (mkM (m_n m) (m_inv m) (m_ret m) (m_call m) (m_res m)
            (set (m_phase m) i (PRead1 c0 nw (m_indexed m)))
-           (m_clock m) (m_committed m) (m_indexed m) (m_lo m) (m_hi m) (m_split m))
+           (m_clock m) (m_committed m) (m_indexed m) (m_hub m) (m_lo m) (m_hi m) (m_split m))
 | s_read2 m i q c0 nw s1 :
     i < m_n m -> m_call m i = CR q -> m_phase m i = PRead1 c0 nw s1 ->
     spec_read2 (firstn s1 (m_committed m)) (idx m) q = spec_read (idx m) q ->
@@ -126,7 +133,7 @@ Inductive mstep (mode : bool) : mstate -> label -> mstate -> Prop :=
       (mkM (m_n m) (m_inv m) (m_ret m) (m_call m)
            (set (m_res m) i (Some (spec_read2 (firstn s1 (m_committed m)) (idx m) q)))
            (set (m_phase m) i PAnswered)
-           (m_clock m) (m_committed m) (m_indexed m) (m_lo m ++ [i]) (m_hi m) (m_split m))
+           (m_clock m) (m_committed m) (m_indexed m) (m_hub m) (m_lo m ++ [i]) (m_hi m) (m_split m))
 | s_read2_split m i q c0 nw s1 :
     i < m_n m -> m_call m i = CR q -> m_phase m i = PRead1 c0 nw s1 ->
     spec_read2 (firstn s1 (m_committed m)) (idx m) q <> spec_read (idx m) q ->
@@ -134,7 +141,7 @@ Inductive mstep (mode : bool) : mstate -> label -> mstate -> Prop :=
       (mkM (m_n m) (m_inv m) (m_ret m) (m_call m)
            (set (m_res m) i (Some (spec_read2 (firstn s1 (m_committed m)) (idx m) q)))
            (set (m_phase m) i PAnswered)
-           (m_clock m) (m_committed m) (m_indexed m) (m_lo m) (m_hi m) (i :: m_split m))
+           (m_clock m) (m_committed m) (m_indexed m) (m_hub m) (m_lo m) (m_hi m) (i :: m_split m))
 (* GetAll / Scan / ZScan with SinceTx > 0: the snapshot handed out may be a reused one, i.e. the
    index state after any p transactions with SinceTx <= p <= indexed (ZScan takes two snapshots,
    p for the sorted-set index and p2 for the key-value index) *)
@@ -142,13 +149,13 @@ Inductive mstep (mode : bool) : mstate -> label -> mstate -> Prop :=
     i < m_n m -> m_call m i = CR q -> m_phase m i = PInvoked c0 nw ->
     (0 < snap_since q)%N -> N.to_nat (snap_since q) <= p -> p <= m_indexed m ->
     N.to_nat (snap_since q) <= p2 -> p2 <= m_indexed m ->
-    (mode = true \/ c0 <= m_indexed m) ->
+    (mode = true \/ c0 <= m_hub m) ->
     spec_read2 (firstn p (m_committed m)) (firstn p2 (m_committed m)) q = spec_read (idx m) q ->
     mstep mode m (LSnap i)
       (mkM (m_n m) (m_inv m) (m_ret m) (m_call m)
            (set (m_res m) i (Some (spec_read2 (firstn p (m_committed m)) (firstn p2 (m_committed m)) q)))
            (set (m_phase m) i PAnswered)
-           (m_clock m) (m_committed m) (m_indexed m) (m_lo m ++ [i]) (m_hi m) (m_split m))
+           (m_clock m) (m_committed m) (m_indexed m) (m_hub m) (m_lo m ++ [i]) (m_hi m) (m_split m))
 | s_snap_stale m i q c0 nw p p2 :
     i < m_n m -> m_call m i = CR q -> m_phase m i = PInvoked c0 nw ->
     (0 < snap_since q)%N -> N.to_nat (snap_since q) <= p -> p <= m_indexed m ->
@@ -158,20 +165,28 @@ Inductive mstep (mode : bool) : mstate -> label -> mstate -> Prop :=
       (mkM (m_n m) (m_inv m) (m_ret m) (m_call m)
            (set (m_res m) i (Some (spec_read2 (firstn p (m_committed m)) (firstn p2 (m_committed m)) q)))
            (set (m_phase m) i PAnswered)
-           (m_clock m) (m_committed m) (m_indexed m) (m_lo m) (m_hi m) (i :: m_split m))
+           (m_clock m) (m_committed m) (m_indexed m) (m_hub m) (m_lo m) (m_hi m) (i :: m_split m))
+(* CompactIndex (indexer.restartIndex): the index is closed and re-opened from the compacted copy,
+   which was dumped from an older snapshot (p < indexed transactions); the indexer then re-indexes
+   from there, but the hub the waits look at keeps its high-water mark *)
+| s_compact m p :
+    p < m_indexed m ->
+    mstep mode m (LCompact p)
+      (mkM (m_n m) (m_inv m) (m_ret m) (m_call m) (m_res m) (m_phase m)
+           (m_clock m) (m_committed m) p (m_hub m) (m_lo m) (m_hi m) (m_n m :: m_split m))
 | s_return_write m i id nw :
     i < m_n m -> m_phase m i = PCommitted id nw ->
-    (nw = true \/ id <= m_indexed m) ->
+    (nw = true \/ id <= m_hub m) ->
     mstep mode m (LReturn i)
       (mkM (m_n m) (m_inv m) (set (m_ret m) i (Some (m_clock m))) (m_call m) (m_res m)
            (set (m_phase m) i PDone)
-           (m_clock m + 1)%N (m_committed m) (m_indexed m) (m_lo m) (m_hi m) (m_split m))
+           (m_clock m + 1)%N (m_committed m) (m_indexed m) (m_hub m) (m_lo m) (m_hi m) (m_split m))
 | s_return m i :
     i < m_n m -> m_phase m i = PAnswered ->
     mstep mode m (LReturn i)
       (mkM (m_n m) (m_inv m) (set (m_ret m) i (Some (m_clock m))) (m_call m) (m_res m)
            (set (m_phase m) i PDone)
-           (m_clock m + 1)%N (m_committed m) (m_indexed m) (m_lo m) (m_hi m) (m_split m)).
+           (m_clock m + 1)%N (m_committed m) (m_indexed m) (m_hub m) (m_lo m) (m_hi m) (m_split m)).
 
 Inductive reach (mode : bool) : mstate -> Prop :=
 | reach_init : reach mode m_init
